@@ -392,12 +392,18 @@ pub fn generate(tier: Tier, rng: &mut Rng, emit: &mut dyn FnMut(String)) {
 
     // ---- sectors and arcs --------------------------------------------------------------------
     // `<sec>` tokens for the given circle and angles, with the plane sector of this build
+    // (the hooks run the real trigonometric code: should it panic for some angles - round-5 seed C08-r5-1, fixed_point
+    // build - the generator survives with placeholder values; executing the op then meets the panic inside the harness's
+    // catch_unwind and reports it with this op as the failing input)
     let sec = |x: i64, y: i64, d: i64, a: i32, w: i32| -> String {
-        let (tag, l, r) = verif_hooks::plane_sector(mdeg(a), mdeg(w));
+        let (tag, l, r) = std::panic::catch_unwind(|| verif_hooks::plane_sector(mdeg(a), mdeg(w))).unwrap_or((0, [0, 0], [0, 0]));
         format!("{} {} {} {} {} {} {} {} {} {}", x, y, d, a, w, tag, l[0], l[1], r[0], r[1])
     };
     let bevel = |a: i32, w: i32| -> String {
-        let (k, n, _) = Styled::new(Sector::new(Point::zero(), 10, mdeg(a), mdeg(w)), PrimitiveStyle::with_stroke(Rgb565::from_num(1), 1)).pixels().verif_bevel();
+        let (k, n, _) = std::panic::catch_unwind(|| {
+            Styled::new(Sector::new(Point::zero(), 10, mdeg(a), mdeg(w)), PrimitiveStyle::with_stroke(Rgb565::from_num(1), 1)).pixels().verif_bevel()
+        })
+        .unwrap_or((0, [0, 0], Default::default()));
         format!("{} {} {}", k, n[0], n[1])
     };
     const ANG: [i32; 22] = [0, 1, 1000, 30000, 45000, 54000, 55000, 56000, 89000, 90000, 135000, 179000, 180000, 181000, 270000, 304000, 305000, 306000, 359000, 360000, 450000, 720000];
